@@ -14,18 +14,17 @@ from engines import c19_inputs as ci
 LEVEL = "proof"
 EXPLANATION = ("Theorems of Props/C19.v are about Validate.validate_X / in_domain_X: hand-written summaries of each class's "
                "constructor+solve validation path and of its documented domain (thin tie). Proved: validate_sound (ValueError => "
-               "outside the domain), validate_complete under the precondition that excludes exactly the listed deviations "
-               "(each with a _refuted witness), accepts_domain. The tie is this malformed-stream correspondence: observed "
+               "outside the domain), validate_complete (unconditional for stDAG, stDiGraph, NodeExpandedDiGraph, MinErrorFlow; otherwise "
+               "under deviates_X = false, which names exactly the deviations still open, each with a _refuted witness), accepts_domain; the "
+               "model of the code before the repairs and its refutations are kept in ValidateOld*.v. The tie is this malformed-stream correspondence: observed "
                "exception type / solved flag vs validate_X on the abstracted input, for singles and pairs of violations; the "
                "property itself is evaluated on every case. Not covered: NumPathsOptimization, MinGenSet, MinSetCover (no graph "
                "input of the kind the property lists), error_scaling / path_length / percentile parameters, coverage_length.")
 ASSUMPTIONS = ["the abstraction alpha (spec -> Validate.input) is computed by the harness from the concrete input; "
                "acyclic / has-source / conservation flags are recomputed independently of flowpaths",
-               "c_greedy_ok and search_enters are read off the implementation's own un-modelled algorithms (max-bottleneck "
-               "greedy, width lower bound); they only matter on code paths after validation",
-               "one solver thread count (threads=1) per process; HiGHS time limit 4 s (a time-out only turns solved into unsolved)",
-               "inside the region of finding #20 (source/sink test fooled) the comparison is loosened: any crash-like outcome "
-               "(not ValueError, not solved) counts as agreement, because the fooled graph also mis-classifies edges as source edges"]
+               "search_enters (did the k-loop of a Min* class construct a k-model) is read off the observed run; it only matters on "
+               "code paths after validation",
+               "one solver thread count (threads=1) per process; HiGHS time limit 4 s (a time-out only turns solved into unsolved)"]
 TRUSTED = ["model: coq/theories/Validate.v; proofs ValidateProofs.v"]
 
 # ------------------------------------------------------------------------------------------ abstraction
@@ -63,39 +62,15 @@ def wclass(w):
     return 0 if w > 0 else (1 if w == 0 else 2)
 
 
-def greedy_ok_flags(spec):
-    """c_greedy_ok per constraint (kFlowDecomp's greedy shortcut), from the implementation's own helpers"""
-    flags = [True] * len(spec["cons"])
-    if spec["cls"] not in ("kFlowDecomp", "MinFlowDecomp") or spec["origin"] != "edge" or spec["ign"]:
-        return flags
-    try:
-        import flowpaths as fp
-        from flowpaths.utils import graphutils as gu
-        G = ci.build_graph(spec)
-        st = fp.stDAG(G)
-        paths, _ = st.decompose_using_max_bottleneck("flow")
-        for j, c in enumerate(spec["cons"]):
-            if not all(item_kind(it) == 1 and G.has_edge(*it) for it in c):
-                continue
-            occ = gu.max_occurrence(list(c), paths, edge_lengths={(u, v): 1 for (u, v) in c})
-            flags[j] = not (occ < len(c) * spec["cov"])
-    except Exception:
-        pass
-    return flags
-
-
 def abstract(spec, obs=None):
     G = ci._graph(spec)
     nodes = spec["nodes"]
-    names1 = [x for x in nodes if isinstance(x, str) and len(x) == 1]
     a = {}
     a["nodes_str"] = [isinstance(x, str) for x in nodes]
     a["n_edges"] = len(spec["edges"])
     a["acyclic"] = nx.is_directed_acyclic_graph(G)
     a["has_source"] = any(G.in_degree(x) == 0 for x in G)
     a["has_sink"] = any(G.out_degree(x) == 0 for x in G)
-    a["src_fooled"] = any(c in "source_" for c in names1)
-    a["snk_fooled"] = any(c in "sink_" for c in names1)
     a["origin"] = {"edge": 0, "node": 1}.get(spec["origin"], 2)
     a["wtype"] = {"int": 0, "float": 1}.get(spec["wtype"], 2)
     cover = spec["cls"] in ci.IS_COVER
@@ -110,8 +85,7 @@ def abstract(spec, obs=None):
     def ingraph(it):
         kd = item_kind(it)
         return (it in nodes) if kd == 0 else ((it in edges) if kd == 1 else False)
-    gflags = greedy_ok_flags(spec)
-    a["cons"] = [[isinstance(c, list), gflags[j], len(c), [[item_kind(it), ingraph(it)] for it in c]] for j, c in enumerate(spec["cons"])]
+    a["cons"] = [[isinstance(c, list), len(c), [[item_kind(it), ingraph(it)] for it in c]] for c in spec["cons"]]
     a["cov"] = common.qtok(spec["cov"])
     a["starts"] = [x in nodes for x in spec["starts"]]; a["ends"] = [x in nodes for x in spec["ends"]]
     a["ign"] = [[item_kind(it), ingraph(it)] for it in spec["ign"]]
@@ -126,7 +100,7 @@ def abstract(spec, obs=None):
 def tokens(spec, a):
     return "validate " + common.toks(
         ci.CLS_ID[spec["cls"]], len(a["nodes_str"]), a["nodes_str"], a["n_edges"], a["acyclic"], a["has_source"], a["has_sink"],
-        a["src_fooled"], a["snk_fooled"], a["origin"], a["wtype"], len(a["elems"]), a["elems"], a["conserving"], a["k"],
+        a["origin"], a["wtype"], len(a["elems"]), a["elems"], a["conserving"], a["k"],
         len(a["cons"]), a["cons"], a["cov"], len(a["starts"]), a["starts"], len(a["ends"]), a["ends"], len(a["ign"]), a["ign"],
         a["search_enters"])
 
@@ -141,26 +115,11 @@ def observed_outcome(r):
     return "UNSOLVED"
 
 
-def is_fooled(spec, a):
-    """DESIGN #20 region: stDiGraph's source/sink test is fooled by a single-character node name"""
-    if spec["cls"] not in ci.IS_CYC or spec["origin"] == "node":
-        return False
-    lb_only = spec["cls"] in ("MinFlowDecompCycles", "MinPathCoverCycles")
-    st = spec["starts"]; en = spec["ends"]
-    return bool((not a["has_source"] and not st and a["src_fooled"]) or (not a["has_sink"] and not en and a["snk_fooled"]))
-
-
-def agrees(model_out, obs, fooled=False):
-    if fooled and obs not in ("ValueError", "SOLVED", "ACCEPT") and model_out != "ACCEPT":
-        # inside the #20 region the out-edges of the single-character node are silently treated as source edges (and thereby
-        # ignored), so a weight violation on them goes unnoticed before the crash: any crash-like outcome is an instance of #20
-        return True
+def agrees(model_out, obs):
     if model_out == "ACCEPT":
         return obs in ("ACCEPT", "SOLVED", "UNSOLVED")
     if model_out == "UNSOLVED":
         return obs == "UNSOLVED"
-    if model_out == "Crash":            # after a fooled source/sink test: anything but a ValueError or a solved model
-        return obs not in ("ValueError", "SOLVED", "ACCEPT")
     return model_out == obs
 
 
@@ -171,11 +130,14 @@ def finding_key(spec, a, obs):
     cls = spec["cls"]; k = spec["k"]
     cyc = cls in ci.IS_CYC
     st = [] if spec["origin"] == "node" else spec["starts"]; en = [] if spec["origin"] == "node" else spec["ends"]
-    if cls in ("MinFlowDecompCycles", "MinPathCoverCycles"):
-        pass
-    if cyc and cls != "stDiGraph" or cls == "stDiGraph":
-        if cyc and ((not a["has_source"] and not st and a["src_fooled"]) or (not a["has_sink"] and not en and a["snk_fooled"])):
-            return "stDiGraph:source-sink-test-fooled:single-char-node-names"
+    names1 = [x for x in spec["nodes"] if isinstance(x, str) and len(x) == 1]
+    if cyc and spec["origin"] != "node" and obs != "ValueError" and (
+            (not a["has_source"] and not st and any(c in "source_" for c in names1)) or
+            (not a["has_sink"] and not en and any(c in "sink_" for c in names1))):
+        return "stDiGraph:source-sink-test-fooled:single-char-node-names"
+    if spec["origin"] == "node" and obs == "TypeError" and any(item_kind(it) == 3 for c in spec["cons"] for it in c) \
+            and spec["cons"] and len(spec["cons"][0]) and item_kind(spec["cons"][0][0]) in (1, 2):
+        return "NodeExpandedDiGraph._get_expanded_subpath_constraints_edges:TypeError:non-tuple-item"
     if cls in ci.HAS_K and k is not None:
         if not isinstance(k, int) and obs == "TypeError":
             return "k-models:TypeError:non-integer-k"
@@ -332,7 +294,7 @@ def check_case(ctx, stream, cls, idx, viols, spec, a, req, out, r):
             ctx.report("generator / model mismatch: in_domain_%s is true on an input with violations %s" % (cls, viols), replay, concrete=False)
             return True
     # (2) correspondence with the faithful model
-    if agrees(model_out, obs, is_fooled(spec, a)):
+    if agrees(model_out, obs):
         ctx.count("E3_validate", "agreements")
     elif not failed and fixed_deviation(ctx, spec, a, model_out):
         # the model still describes a deviation whose known_findings entry is marked "fixed" (its repair has been applied to
@@ -356,4 +318,4 @@ def replay(ctx, body):
     obs = observed_outcome(r)
     print("observed now:", r, "->", obs, "| model:", out)
     bad = (obs != "ValueError") if body["violations"] else bool(r["ctor"] or r["solve"])
-    return bad or not agrees(out.split()[0], obs, is_fooled(spec, a))
+    return bad or not agrees(out.split()[0], obs)
